@@ -1,0 +1,21 @@
+//! Verification hook (compiled only with `--cfg essential_base_verif`).
+//!
+//! A process-global observer that is invoked after every successfully executed
+//! operation, including those executed by compute children.
+
+use crate::Vm;
+use std::sync::OnceLock;
+
+static ON_STEP: OnceLock<fn(&Vm)> = OnceLock::new();
+
+/// Install the observer. Only the first call has an effect.
+pub fn set_on_step(f: fn(&Vm)) {
+    let _ = ON_STEP.set(f);
+}
+
+#[inline]
+pub(crate) fn on_step(vm: &Vm) {
+    if let Some(f) = ON_STEP.get() {
+        f(vm)
+    }
+}
